@@ -139,7 +139,7 @@ func randCompose(rng *rand.Rand, n int) cmpCfg {
 }
 
 // every job names itself in a trailing comment: "<command> # <owner>-<role>"
-func composeYAML(c cmpCfg, rng *rand.Rand) string {
+func composeYAML(c cmpCfg, rng *rand.Rand, dir string) string {
 	var b strings.Builder
 	hook := func(kind, tag string) string {
 		if kind == "fail" {
@@ -220,13 +220,13 @@ func composeYAML(c cmpCfg, rng *rand.Rand) string {
 			if c.Gr[i] != graph {
 				continue
 			}
-			composeStage(&b, c, s)
+			composeStage(&b, c, s, dir)
 		}
 	}
 	return b.String()
 }
 
-func composeStage(b *strings.Builder, c cmpCfg, s int) {
+func composeStage(b *strings.Builder, c cmpCfg, s int, dir string) {
 	if c.Inc[s-1] {
 		fmt.Fprintf(b, "    - name: s%d\n      pipeline: q\n", s)
 	} else {
@@ -243,14 +243,23 @@ func composeStage(b *strings.Builder, c cmpCfg, s int) {
 	case "FAILA":
 		b.WriteString("      allow_failure: true\n")
 	case "CFALSE":
-		b.WriteString("      condition: \"false\"\n")
+		if s%2 == 0 {
+			// (a condition is the path of a program; the path may contain blanks)
+			fmt.Fprintf(b, "      condition: %q\n", filepath.Join(dir, "my checks", "no.sh"))
+		} else {
+			b.WriteString("      condition: \"false\"\n")
+		}
 	case "CERR":
 		b.WriteString("      condition: \"/nonexistent/verif-no-such-condition\"\n")
 	}
 	// some stages have a condition that holds and some a (templated) directory of their own: neither
 	// changes what the model says, and the condition is evaluated where taskctl runs
 	if c.Cls[s-1] != "CFALSE" && c.Cls[s-1] != "CERR" && (s+len(c.Deps[s-1]))%2 == 0 {
-		b.WriteString("      condition: \"true\"\n")
+		if s%2 == 1 {
+			fmt.Fprintf(b, "      condition: %q\n", filepath.Join(dir, "my checks", "yes.sh"))
+		} else {
+			b.WriteString("      condition: \"true\"\n")
+		}
 	}
 	if !c.Inc[s-1] && (s+c.N)%3 == 0 {
 		b.WriteString("      dir: \"{{.Root}}\"\n")
@@ -313,7 +322,10 @@ func ComposeCheck(env *core.Env, rep *core.Report, k int, models ...string) map[
 		c := randCompose(rng, 2+rng.Intn(4))
 		d := env.Sub("cmp")
 		td := env.Sub("cmptrace")
-		_ = ioutil.WriteFile(filepath.Join(d, "tasks.yaml"), []byte(composeYAML(c, rng)), 0o644)
+		_ = os.MkdirAll(filepath.Join(d, "my checks"), 0o755)
+		_ = ioutil.WriteFile(filepath.Join(d, "my checks", "yes.sh"), []byte("#!/bin/sh\nexit 0\n"), 0o755)
+		_ = ioutil.WriteFile(filepath.Join(d, "my checks", "no.sh"), []byte("#!/bin/sh\nexit 1\n"), 0o755)
+		_ = ioutil.WriteFile(filepath.Join(d, "tasks.yaml"), []byte(composeYAML(c, rng, d)), 0o644)
 		res := core.RunBin(d, append(core.CleanEnv(home), "VERIF_TRACE="+td), 60*time.Second, "", env.Taskctl, "--raw", "p")
 		out[i].cfg = c
 		if res.TimedOut || res.Crashed() {
